@@ -22,6 +22,7 @@ Games ==
       [] Family = "slowrew" -> DescribeAll("slowrew", Pick(K, SlowRewGames))
       [] Family = "gap5" -> DescribeAll("gap5", Gap5Games)
       [] Family = "forced" -> DescribeAll("forced", Pick(K, ForcedGames))
+      [] Family = "degen" -> DescribeAll("degen", DegenGames)
       [] Family = "zerow" -> DescribeAll("zerow", ZeroWGames)
       [] Family = "slow" -> DescribeAll("slow", Pick(K, SlowGames))
       [] Family = "bigrew" -> DescribeAll("bigrew", Pick(K, BigRewGames))
